@@ -29,6 +29,7 @@ func systematicCases() []genCase {
 		sysCases = append(sysCases, famConcat()...)
 		sysCases = append(sysCases, famEvalOrder()...)
 		sysCases = append(sysCases, famLogicValues()...)
+		sysCases = append(sysCases, famInputTyping()...)
 	})
 	return sysCases
 }
@@ -345,6 +346,44 @@ func famLogicValues() []genCase {
 				out = append(out, mk("logic-values", src, input))
 			}
 		}
+	}
+	return out
+}
+
+// famInputTyping: text that arrives through getline (into $0, a variable, an array element, a
+// field; from the main input, a file, a command) and through split() is input: a numeric-looking
+// line compares as a number wherever it was stored. And the fields of a record under an FS with
+// alternatives are the leftmost-longest split, like split() with the same separator.
+func famInputTyping() []genCase {
+	var out []genCase
+	numeric := "10\n9\n0\n+5\n 7 \n1e1\nabc\n0.0\n-0\n10.0\n"
+	obs := func(x string) string {
+		return fmt.Sprintf(`print "o", (%s < 9), (%s == 10), (%s ? "T" : "F"), (%s == "10.0"), (%s < "a"), %s + 0, length(%s)`, x, x, x, x, x, x, x)
+	}
+	targets := [][2]string{{"", "$0"}, {"v", "v"}, {"A[1]", "A[1]"}, {"A[NR, 2]", "A[NR, 2]"}, {"$2", "$2"}, {"$0", "$0"}}
+	sources := []string{"", `< "in0"`, `< ("in" 0)`}
+	for _, tg := range targets {
+		for _, src := range sources {
+			gl := strings.TrimSpace("getline " + tg[0] + " " + src)
+			p := fmt.Sprintf("BEGIN { $0 = \"p q\"; while ((%s) > 0) { %s; w = %s; %s; B[1] = %s; %s } }\n", gl, obs(tg[1]), tg[1], obs("w"), tg[1], obs("B[1]"))
+			cs := mk("input-typing", p, numeric)
+			cs.Env.Files = map[string]string{"in0": numeric, "in1": "", "in2": ""}
+			out = append(out, cs)
+			fp := fmt.Sprintf("function f(   l, L) { while ((%s) > 0) { }; return 0 }\nfunction g(   l, L, n) { while ((getline l %s) > 0) { L[++n] = l; %s; %s } }\nBEGIN { g() }\n", gl, src, obs("l"), obs("L[n]"))
+			cs2 := mk("input-typing", fp, numeric)
+			cs2.Env.Files = map[string]string{"in0": numeric, "in1": "", "in2": ""}
+			out = append(out, cs2)
+		}
+	}
+	for _, st := range []string{`n = split($0, S); for (i = 1; i <= n; i++) { ` + obs("S[i]") + ` }`, `n = split($0, S, ","); ` + obs("S[1]"), `$3 = $1; ` + obs("$3") + `; x = $1 ""; ` + obs("x"), `y = substr($1, 1); ` + obs("y")} {
+		out = append(out, mk("input-typing", "{ "+st+" }\n", "10 9\n9,10 0\n1e1 abc\n0.0 -0\n 7  +5\n"))
+	}
+	fss := []string{",|, ", "a|ab", "-|--", "x|xy|xyz", ", *", "(ab)+|a", ":|::", "b|ab|abc", "[ ,]+|;"}
+	input := "a, b,c\n1ab2a3abab4\np--q-r---s\n1xyz2xy3x4\nu,   v,w\nabab1a2ababab3\nk::v:w\nzabcab9b\na ,;b;,c\n"
+	for _, fs := range fss {
+		q := strings.ReplaceAll(fs, `\`, `\\`)
+		out = append(out, mk("fs-alternation", fmt.Sprintf("BEGIN { FS = \"%s\" }\n{ printf \"%%d\", NF; for (i = 1; i <= NF; i++) printf \"[%%s]\", $i; print \"\"; n = split($0, A, FS); printf \"%%d\", n; for (i = 1; i <= n; i++) printf \"[%%s]\", A[i]; print \"\"; $1 = $1; print }\n", q), input))
+		out = append(out, mk("fs-alternation", fmt.Sprintf("{ n = split($0, A, \"%s\"); printf \"%%d\", n; for (i = 1; i <= n; i++) printf \"[%%s]\", A[i]; print \"\" }\n", q), input))
 	}
 	return out
 }
